@@ -79,7 +79,8 @@ func (c *Conn) Write(ctx context.Context, buf []byte) (int, error) {
 	}
 }
 
-// Read reads from the underlying connection.
+// Read reads from the connection through the same buffered reader as ReadBytes,
+// so bytes already buffered by a preceding ReadBytes are not lost.
 // It is not safe for concurrent use with itself or ReadBytes.
 func (c *Conn) Read(ctx context.Context, buf []byte) (int, error) {
 	// Enable immediate connection cancelation via context by using the context's
@@ -92,7 +93,7 @@ func (c *Conn) Read(ctx context.Context, buf []byte) (int, error) {
 
 	ch := make(chan ioret, 1)
 	go func() {
-		n, err := c.conn.Read(buf)
+		n, err := c.reader.Read(buf)
 		ch <- ioret{n, err}
 	}()
 
